@@ -150,7 +150,25 @@ func Prepare(s *ev.S, opt Options) (*BuildReport, error) {
 			return nil, fmt.Errorf("building generated cells failed: %s", out)
 		}
 	}
-	// a package that imports a broken package is unusable too (only base is imported)
+	// a package that imports a broken package is unusable too (transitively)
+	for changed := true; changed && len(rep.CompileError) > 0; {
+		changed = false
+		for _, pk := range pkgs {
+			if _, bad := rep.CompileError[pk]; bad {
+				continue
+			}
+			files, _ := filepath.Glob(filepath.Join(mod, "gen", pk, "*.go"))
+			for _, gf := range files {
+				src, _ := os.ReadFile(gf)
+				for broken := range rep.CompileError {
+					if bytes.Contains(src, []byte("\"cellsmod/gen/"+broken+"\"")) {
+						rep.CompileError[pk] = "imports " + broken + ", which does not compile"
+						changed = true
+					}
+				}
+			}
+		}
+	}
 	if _, broken := rep.CompileError["base"]; broken {
 		return nil, fmt.Errorf("the base cell does not build: %s", rep.CompileError["base"])
 	}
